@@ -2,7 +2,7 @@
    Model: model/SccLen.v (the scan at the end of SCCReader.read, after fix #5); spec: spec/SpecSccLen.v. *)
 From Coq Require Import List ZArith Bool Permutation.
 From Coq Require Import QArith.
-From PV Require Import lib.Sx lib.Str lib.Result model.SccLen model.SccStash model.SccDecoder spec.SpecSccLen proofs.SccLenFacts proofs.SccReadLenFacts.
+From PV Require Import lib.Sx lib.Str lib.Result model.SccLen model.SccStash model.SccDecoder spec.SpecSccLen proofs.SccLenFacts proofs.SccReadLenFacts proofs.SccLenLooseFacts.
 Import ListNotations.
 Open Scope Z_scope.
 
@@ -42,7 +42,19 @@ Theorem C15_length_check_order_free : forall caps caps', Permutation caps caps' 
 Proof. exact length_check_order_free. Qed.
 Print Assumptions C15_length_check_order_free.
 
-(* END TO END on the whole reader model (model/SccDecoder.v): for EVERY stream (any lines, any code words, any offset)
+(* the oracle the harness evaluates on the implementation uses the weakest reading of "naming": the message contains the
+   text of every offending line; it follows from the exact message format, so the model meets it as well *)
+Theorem C15_ok_implies_loose : forall caps out, ok_c15 caps out = true -> ok_c15_loose caps out = true.
+Proof. exact ok_c15_implies_loose. Qed.
+Print Assumptions C15_ok_implies_loose.
+Theorem C15_length_check_meets_loose_oracle : forall caps, ok_c15_loose caps (length_check caps) = true.
+Proof. exact length_check_meets_loose_oracle. Qed.
+Print Assumptions C15_length_check_meets_loose_oracle.
+
+(* END TO END on the whole reader model (model/SccDecoder.v: every list of parsed lines (timecode, code words), every
+   offset, simulate_roll_up = False; the text-level tokenisation of a line is outside the model). NOTE: this composes the
+   scan with `finish_read` only; it holds whatever the decoder stores, so it says nothing about rows being lost on the
+   way - that part is the decoder correspondence and, for pop-on programs, C05_popon_refines_608.
    read never returns a caption line longer than 32 characters, and the line-length error names every over-long line
    of the captions the decoder had stored *)
 Theorem C15_read_never_silent : forall off ls,
@@ -63,6 +75,12 @@ Theorem C15_length_overwrite_refuted :
   Permutation wit_a wit_b /\ is_some (length_check_prefix wit_b) = true.
 Proof. exact length_overwrite_refuted. Qed.
 Print Assumptions C15_length_overwrite_refuted.
+
+(* non-vacuity of C15_read_never_silent: read yields both outcomes on concrete streams *)
+Example C15_read_raises : exists m, read 0 (row_stream 17) = RLen m.
+Proof. exact read_raises_on_34. Qed.
+Example C15_read_returns : exists c, read 0 (row_stream 16) = ROk [c] /\ length (cap_text c) = 32%nat.
+Proof. exact read_returns_32. Qed.
 
 (* non-vacuity: both outcomes occur; two captions share a key *)
 Example C15_example_raises :
